@@ -32,6 +32,8 @@ def signature(rec, info):
     e = info.get("event") or {}
     tag = rec["tag"].split("-")[0]
     k = e.get("ev")
+    if k == "Exec" and "skew" in e:
+        return "straddle:ttl-lowered-although-less-than-a-second-elapsed"
     if k == "Exec":
         o = e["o"]
         src = None
@@ -49,7 +51,11 @@ def signature(rec, info):
     if k == "Dump":
         return "%s:lifetime-in-dump-exceeds-bound" % tag
     if k == "RefreshStart":
+        if e.get("hasresp"):
+            return "lazy:refresh-chain-started-with-the-stale-response"
         return "lazy:second-refresh-in-flight"
+    if k == "Exec" and "skew" in e:
+        return "straddle:ttl-lowered-although-less-than-a-second-elapsed"
     return "%s:rejected:%s" % (tag, k)
 
 
@@ -68,7 +74,7 @@ def sub_job(job, r):
         return None
     c = job["c05"]
     j = {"mode": "c05", "c05": {"map": c["map"], "inject": [], "real": [], "lazy_beh": [], "burst": c["burst"], "realtime": False,
-                                "opt_ttls": c["opt_ttls"]}}
+                                "opt_ttls": c["opt_ttls"], "straddle": 0}}
     tag = r["tag"]
     if tag == "inject":
         j["c05"]["inject"] = [x for x in c["inject"] if x["beh"] == r["beh"] and x["step"] == r["step"]]
@@ -76,6 +82,8 @@ def sub_job(job, r):
         j["c05"]["real"] = [c["real"][r["beh"]]]
     elif tag == "lazy":
         j["c05"]["lazy_beh"] = [c["lazy_beh"][r["beh"]]] * 3
+    elif tag == "straddle":
+        j["c05"]["straddle"] = 4
     else:
         j["c05"]["realtime"] = True
     return j
@@ -103,6 +111,9 @@ def run(ctx):
         "boundary; served TTLs may read 1 s older (wall-clock skew); real phases longer than 0.9 s are discarded and repeated",
         "TTLs above 2^31-1 are outside TLC's integers and not exercised; NXDOMAIN/SERVFAIL answers whose own records have a TTL "
         "below 30/5 s are judged by the 30/5 s bound and the max(1, ttl - elapsed) rule only",
+        "second-boundary scenario: store at x.8 s, lookup at (x+1).15 s of the wall clock; judged without the 1-s band only if the harness "
+        "measured < 0.95 s around both calls",
+        "the background refresh chain behaves like `has_resp -> accept` before the upstream and must be started on a context without response",
         "lazy bursts are executed in phases (all calls of a burst return while the background `next` is held), so calls commute",
     ]
     # ---- leg A
@@ -187,7 +198,7 @@ def run(ctx):
 
     binary = vlib.go_build(ctx, "drv_cache")
     job = {"mode": "c05", "c05": {"map": cl.plain_map(), "inject": cases, "real": gr, "lazy_beh": gl, "burst": 4,
-                                  "realtime": T, "opt_ttls": [0x8000, 0]}}
+                                  "realtime": T, "opt_ttls": [0x8000, 0], "straddle": 8 if T else 3}}
     recs, _ = vlib.run_driver(ctx, binary, stdin_obj=job, timeout=1500)
     tr = [r for r in recs if r["kind"] == "trace"]
     slow = [r for r in tr if r["slow"]]
@@ -207,6 +218,8 @@ def run(ctx):
         want = sum(1 for c in cases if c["exp"] != "miss")
         if hits < want // 2:
             raise vlib.Infra("dead driver: only %d of %d injected live entries were served" % (hits, want))
+        if not [r for r in tr if r["tag"] == "straddle"]:
+            raise vlib.Infra("no second-boundary (straddle) round could be measured within 0.95 s")
         nbg = [r["extra"]["background"] for r in tr if r["tag"] == "lazy" and r.get("extra")]
         if not nbg or max(nbg) == 0:
             raise vlib.Infra("dead driver: no lazy refresh ever reached the harness next")
